@@ -75,6 +75,7 @@ pub struct Truth {
     seen_multibyte: bool,
     /// blanks around a delimiter line / a character reference were rendered
     pub class_pad: bool,
+    pub class_marker_late: bool,
     pub class_entity: bool,
 }
 
@@ -89,6 +90,7 @@ impl Truth {
             ignored_words: vec![],
             prose_segments: 0,
             class_pad: false,
+            class_marker_late: false,
             class_entity: false,
             multibyte_before_prose: false,
             seen_multibyte: false,
@@ -242,11 +244,23 @@ fn render_source(spec: &'static LangSpec, segs: &[Seg], crlf: bool) -> Truth {
                         t.raw(leader);
                         t.raw(" ");
                         if let Some(m) = ig {
-                            if li == 0 {
+                            // the marker counts wherever it stands in the comment: in front, at
+                            // the very end, or after the tool's bare name was mentioned in passing
+                            let place = ignore.unwrap_or(0) as usize / IGNORE_MARKERS.len() % 3;
+                            if li == 0 && place == 0 {
                                 t.nonprose(m);
                                 t.raw(" ");
                             }
+                            if li == 0 && place == 2 {
+                                t.nonprose(m.split(':').next().unwrap_or("harper"));
+                                t.raw(" ");
+                            }
                             t.ignored_sentence(line);
+                            if (place == 1 && li + 1 == lines.len()) || (place == 2 && li == 0) {
+                                t.raw(" ");
+                                t.nonprose(m);
+                                t.class_marker_late = true;
+                            }
                         } else {
                             t.sentence(line);
                         }
@@ -261,11 +275,23 @@ fn render_source(spec: &'static LangSpec, segs: &[Seg], crlf: bool) -> Truth {
                         t.raw(indent(*ind));
                         t.raw(if *stars { " * " } else { "   " });
                         if let Some(m) = ig {
-                            if li == 0 {
+                            // the marker counts wherever it stands in the comment: in front, at
+                            // the very end, or after the tool's bare name was mentioned in passing
+                            let place = ignore.unwrap_or(0) as usize / IGNORE_MARKERS.len() % 3;
+                            if li == 0 && place == 0 {
                                 t.nonprose(m);
                                 t.raw(" ");
                             }
+                            if li == 0 && place == 2 {
+                                t.nonprose(m.split(':').next().unwrap_or("harper"));
+                                t.raw(" ");
+                            }
                             t.ignored_sentence(line);
+                            if (place == 1 && li + 1 == lines.len()) || (place == 2 && li == 0) {
+                                t.raw(" ");
+                                t.nonprose(m);
+                                t.class_marker_late = true;
+                            }
                         } else {
                             t.sentence(line);
                         }
@@ -662,6 +688,7 @@ fn test_file_via(spec: &FileSpec, ctx: &mut CaseCtx, server_wrappers: bool, by_f
     ctx.class_if(truth.prose_segments >= 2, "prose_segments>=2");
     ctx.class_if(!truth.ignored_words.is_empty(), "has_ignored_comment");
     ctx.class_if(truth.class_pad, "blanks_around_delimiter_line");
+    ctx.class_if(truth.class_marker_late, "ignore_marker_not_at_the_start_of_its_comment");
     ctx.class_if(truth.class_entity, "character_reference");
     ctx.class_if(server_wrappers, "server_wrappers");
     if truth.multibyte_before_prose && truth.prose_segments >= 2 {
@@ -818,6 +845,7 @@ pub fn run(run: &mut Run) {
     }
     run.require_class("files_with_ground_truth", "multibyte_nonprose_before_prose", (n / 5) as u64);
     run.require_class("files_with_ground_truth", "has_ignored_comment", (n / 10) as u64);
+    run.require_class("files_with_ground_truth", "ignore_marker_not_at_the_start_of_its_comment", (n / 20) as u64);
     run.require_class("files_with_ground_truth", "blanks_around_delimiter_line", (n / 100) as u64);
     run.require_class("files_with_ground_truth", "character_reference", (n / 200) as u64);
 }
